@@ -32,7 +32,7 @@ fn main() {
 
     // ---- C09: dense 0..=160 and the large transport buffers
     let mut ss: Vec<usize> = (0..=160).collect();
-    ss.extend([255usize, 256, 257, 1024, 1500, 2048, 4096]);
+    ss.extend([255usize, 256, 257, 1024, 1500, 2048, 4096, 65535, 65536, 65537, 70000, 131072]);
     let mut s = String::new();
     writeln!(s, "pub const CAPS: &[usize] = &{:?};", ss).unwrap();
     writeln!(s, "pub fn serialize_s(resp: &ctap_types::ctap1::Response, cap: usize, prefix: &[u8]) -> Option<(bool, Vec<u8>)> {{ match cap {{").unwrap();
